@@ -437,7 +437,7 @@ class Ctx(object):
             goal = z3.BoolVal(goal)
         ob = Obligation(name, self.pc, goal, kind, self.path_id, expect_fail, info)
         self.obligations.append(ob)
-        if not expect_fail:
+        if not expect_fail and kind not in ("ensures", "frame", "raises", "lemma"):
             # after checking, the asserted fact may be used on the rest of the path
             try:
                 self.assume(goal)
